@@ -154,7 +154,7 @@ func keyCacheInternal(f *ssa.Function) bool {
 
 func ruleC09HandoutRelease(c *Ctx) {
 	u := c.U1
-	c.rule("C09.handout-release", "every *cachedCryptoKey obtained from a keyCacher (directly or through a pass-through helper) is closed or returned on every path to return", 7)
+	c.rule("C09.handout-release", "every *cachedCryptoKey obtained from a keyCacher (directly or through a pass-through helper) is closed or returned on every path to return", 6)
 	r := keyOwnRules()
 	for _, f := range u.RepoFuncs {
 		if keyCacheInternal(f) {
